@@ -3,6 +3,7 @@ package url
 import (
 	"net/url"
 	"strings"
+	"unicode/utf8"
 )
 
 type searchParam struct {
@@ -37,7 +38,35 @@ func (s searchParams) Swap(i, j int) {
 }
 
 func (s searchParams) Less(i, j int) bool {
-	return strings.Compare(s[i].name, s[j].name) < 0
+	return utf16Less(s[i].name, s[j].name)
+}
+
+// utf16Less compares like the URL standard's sort: by UTF-16 code units, not by code points
+// (they differ when a character beyond U+FFFF meets one in U+E000..U+FFFF).
+func utf16Less(a, b string) bool {
+	for len(a) > 0 && len(b) > 0 {
+		ra, na := utf8.DecodeRuneInString(a)
+		rb, nb := utf8.DecodeRuneInString(b)
+		if ra != rb {
+			a1, a2 := utf16Units(ra)
+			b1, b2 := utf16Units(rb)
+			if a1 != b1 {
+				return a1 < b1
+			}
+			return a2 < b2
+		}
+		a, b = a[na:], b[nb:]
+	}
+	return len(a) == 0 && len(b) > 0
+}
+
+// utf16Units returns the UTF-16 code units of r (the second one is 0 for a character of the basic plane).
+func utf16Units(r rune) (rune, rune) {
+	if r < 0x10000 {
+		return r, 0
+	}
+	r -= 0x10000
+	return 0xd800 + r>>10, 0xdc00 + r&0x3ff
 }
 
 func (s searchParams) Encode() string {
